@@ -1180,7 +1180,7 @@ def run(ctx):
     # ---- enumeration. thorough: the full product for the baseline spelling. quick: the same product over every fault
     # position, with three stated reductions: the five single-purpose graphs only (the combined graph, 30 % of all
     # effects and the most expensive executions, is left to thorough); RuntimeError (an Exception subclass like OSError)
-    # and the KeyboardInterrupt poison are left to thorough, and KeyboardInterrupt is injected into the three cheapest
+    # and the KeyboardInterrupt poison are left to thorough, and KeyboardInterrupt is injected into the two cheapest
     # graphs only (whether a BaseException is cleaned up does not depend on the graph); mode 'w' on an existing target
     # (refused before the first write, so the fault position cannot matter) is run for the first and the last position only.
     # Non-baseline target spellings (SPELLINGS[store][1:]) multiply every family: thorough = every graph and every fault
@@ -1190,7 +1190,7 @@ def run(ctx):
     inj_exc = ["OSError", "KeyboardInterrupt"] if ctx.quick else list(INJ_EXC)
     poison_exc = ["PicklingError"] if ctx.quick else list(POISON_EXC)
     alt_graphs = [g for g in graphs if g in ("attrs", "arrays")] if ctx.quick else list(graphs)
-    ki_graphs = ["attrs", "arrays", "nested"] if ctx.quick else list(graphs)
+    ki_graphs = ["attrs", "arrays"] if ctx.quick else list(graphs)
 
     def keep(m, p, idx, n):
         return not (ctx.quick and m == "w" and p != "absent" and idx not in (0, n - 1))
@@ -1265,8 +1265,8 @@ def run(ctx):
                 for m in MODES:
                     for p in PRES:
                         cases.append({"family": "control", "graph": g, "store": kind, "mode": m, "pre": p, "exc": None, "name": nm, "ptype": pt})
-                if e.get("may_refuse") or (ctx.quick and pt != "str"):
-                    continue
+                if e.get("may_refuse") or (ctx.quick and (pt != "str" or g != name_graphs[-1])):
+                    continue  # quick: faults for str on graph arrays only
                 pres = ["absent", "old"] if ctx.quick else PRES
                 pos = positions(build_graph(g, ctx.seed))
                 for pi in ([len(pos) - 1] if ctx.quick else sorted({0, len(pos) - 1})):
@@ -1335,9 +1335,9 @@ def run(ctx):
                                     cases.append({"family": "injected", "graph": g, "store": s, "mode": m, "pre": p, "exc": "OSError", "k": k, "n_effects": n, "gmode": gm})
     n_gm = sum(1 for c in cases if c.get("gmode"))
     # EXCEPTION TYPES: every type of EXC_TYPES at (quick: first / middle / middle of the zip assembly / last; thorough:
-    # every) fault position x both stores x both modes x pre-states absent/old; quick: graphs attrs/arrays, thorough: the
+    # every) fault position x both stores x both modes x pre-states absent/old; quick: graph arrays, thorough: the
     # four cheapest graphs. The extra poison types at the first / last attribute position.
-    et_graphs = [g for g in graphs if g in (("attrs", "arrays") if ctx.quick else ("attrs", "arrays", "nested", "tensors"))]
+    et_graphs = [g for g in graphs if g in (("arrays",) if ctx.quick else ("attrs", "arrays", "nested", "tensors"))]
     n0 = len(cases)
     for g in et_graphs:
         pos = positions(build_graph(g, ctx.seed))
@@ -1376,7 +1376,7 @@ def run(ctx):
             hook_ref[f"{act}/{s}"] = {"effects": r1["effects_seen"], "hook_at": r1["hook_at"], "hook_end": r1["hook_end"]}
             for k in range(r1["hook_at"], r1["effects_seen"]):
                 for e in (["OSError"] if ctx.quick else ["OSError", "KeyboardInterrupt", "FileExistsError"]):
-                    for m, p in (("w", "absent"), ("o", "absent"), ("o", "old")):
+                    for m, p in ((("w", "absent"), ("o", "old")) if ctx.quick else (("w", "absent"), ("o", "absent"), ("o", "old"))):
                         cases.append({"family": "injected", "graph": "hooked", "store": s, "mode": m, "pre": p, "exc": e, "k": k, "n_effects": r1["effects_seen"], "hook": act})
     n_hook = len(cases) - n0
     n_seamfree = sum(1 for c in cases if c["family"] == "seamfree")
@@ -1424,7 +1424,7 @@ def run(ctx):
             "global_mode_lattice": {"graphs": gm_graphs, "pre_states": gm_pres, "fault_positions": {"warnings_error": "all", "cwd_elsewhere": "first, middle, middle of the zip assembly, last", "no_grad": "first, middle, middle of the zip assembly, last"}, "executions": n_gm},
             "target_name_lattice": {
                 "graphs": name_graphs,
-                "families": "controls (str on both graphs, Path on attrs); OSError at first/last effect and poison at last position (str; pre-states absent, old)" if ctx.quick else "controls; OSError at first/middle/middle of zip assembly/last effect; poison at first/last position; str and Path; all pre-states",
+                "families": "controls (str on both graphs, Path on attrs); OSError at first/last effect and poison at last position (str, graph arrays; pre-states absent, old)" if ctx.quick else "controls; OSError at first/middle/middle of zip assembly/last effect; poison at first/last position; str and Path; all pre-states",
                 "executions": n_named,
             },
         },
